@@ -135,7 +135,11 @@ func main() {
 				if !filepath.IsAbs(tgt) {
 					tgt = filepath.Join(*repo, tgt)
 				}
-				ov.Replace[tgt] = filepath.Join(*verif, fs[2])
+				src := fs[2]
+				if !filepath.IsAbs(src) {
+					src = filepath.Join(*verif, src)
+				}
+				ov.Replace[tgt] = src
 			case "whitebox":
 				wbOnly[fs[1]] = true
 			case "harness":
@@ -219,7 +223,11 @@ func main() {
 		}
 	}
 	b, _ := json.MarshalIndent(ov, "", " ")
-	if err := os.WriteFile(filepath.Join(*out, "overlay.json"), b, 0o644); err != nil {
+	tmp := filepath.Join(*out, fmt.Sprintf("overlay.json.%d", os.Getpid()))
+	if err := os.WriteFile(tmp, b, 0o644); err != nil {
+		die("%v", err)
+	}
+	if err := os.Rename(tmp, filepath.Join(*out, "overlay.json")); err != nil {
 		die("%v", err)
 	}
 	fmt.Fprintf(os.Stderr, "mkoverlay: profile=%s files=%d rewritten=%d\n", *profile, len(ov.Replace), n)
